@@ -38,6 +38,40 @@ def judge(world, procs, sched, drv):
     return obs, bad
 
 
+def followups(world, procs, obs, what):
+    """after the interleaved puts: `list` - trash-list shows one line per entry a process reported as trashed (C09);
+    `restore` - each of them comes back from the trash, same node at the same place (C02)"""
+    from ..model import cmd_argv, snap_to_state, world_from_state
+    from ..sandbox import run_world
+    problems = []
+    state = snap_to_state(obs["after"])
+    before = snap_to_state(obs["before"])
+    done = [(pr, w) for pr, w in zip(obs["procs"], procs) if pr["exit"] == 0]
+    entries = [w["meta"][0]["entry"] for _pr, w in done]
+    if what == "list":
+        wl = world_from_state(world, state, cmd="list", cwd=world["cwd"], opts={}, args=[], stdin=None)
+        wl["argv"] = []
+        o = run_world(wl, {})
+        for e in entries:
+            n = sum(1 for l in o["stdout"].split(b"\n") if l.endswith(b" " + e))
+            if n != 1:
+                problems.append({"oracle": "C09-listing", "verdict": "after interleaved puts trash-list shows %d line(s) for %r, trashed by a "
+                                                                    "process that reported success" % (n, e)})
+    else:
+        for e in entries:
+            wr = world_from_state(world, state, cmd="restore", cwd=world["cwd"], opts={"path": e, "sort": "path"}, args=[], stdin=b"0\n")
+            wr["argv"] = cmd_argv(wr)
+            o = run_world(wr, {})
+            after = snap_to_state(o["after"])
+            want, got = before.get(e), after.get(e)
+            same = want is not None and got is not None and want[0] == got[0] and want[1] == got[1] and want[4] == got[4]
+            if not same:
+                problems.append({"oracle": "C02-restore", "verdict": "after interleaved puts %r cannot be restored (trash-restore %r, reply 0: "
+                                                                    "exit %r, %r)" % (e, e, o["exit"], o["stdout"][-200:])})
+            state = after
+    return problems
+
+
 def replay_concurrent(pid, path, oracles=None):
     """re-run the recorded processes under the recorded schedule; None when the file is not a concurrent replay"""
     import json
@@ -47,6 +81,9 @@ def replay_concurrent(pid, path, oracles=None):
     if not rp or not rp.get("procs") or rp.get("schedule") is None:
         return None
     obs, bad = judge(rp["world"], rp["procs"], list(rp["schedule"]), driver())
+    for what in ("list", "restore"):
+        if oracles is None or ("C09-listing" if what == "list" else "C02-restore") in oracles:
+            bad = bad + followups(rp["world"], rp["procs"], obs, what)
     bad = [b for b in bad if oracles is None or b["oracle"] in oracles]
     print(json.dumps({"executed": obs["executed"], "exits": [p["exit"] for p in obs["procs"]], "bad": bad}, indent=1, default=repr))
     if bad:
@@ -100,6 +137,8 @@ def par_task(task):
             cur = rng.randrange(nproc)
         sched.append(cur)
     obs, bad = judge(world, procs, sched, drv)
+    if task.get("follow"):
+        bad = bad + followups(world, procs, obs, task["follow"])
     switches = sum(1 for a, c in zip(obs["executed"], obs["executed"][1:]) if a != c)
     out = {"key": (scenario, nproc, tuple(sched[:60]), name), "tags": ["scenario:" + scenario, "procs:%d" % nproc,
                                                                       "switches:%s" % ("0" if switches == 0 else "1-5" if switches <= 5 else "6-50" if switches <= 50 else ">50"),
@@ -113,11 +152,11 @@ def par_task(task):
     return out
 
 
-def add_concurrent(ck, tier, seed, oracles=None, n_quick=120, n_thorough=3000):
-    """`oracles`: which verdicts count for the calling check (None: all)"""
+def add_concurrent(ck, tier, seed, oracles=None, n_quick=120, n_thorough=3000, follow=None):
+    """`oracles`: which verdicts count for the calling check (None: all); `follow`: "list" / "restore" after the puts"""
     n = n_quick if tier == "quick" else n_thorough
     steps = 0
-    for r in run_tasks(par_task, [{"seed": seed, "i": i} for i in range(n)]):
+    for r in run_tasks(par_task, [{"seed": seed, "i": i, "follow": follow} for i in range(n)]):
         if "machinery" in r:
             raise MachineryError(r["machinery"])
         ck.case(r["key"], tags=["concurrent"] + r["tags"], sample={"concurrent": r["key"][0], "procs": r["key"][1], "steps": r["steps"]})
